@@ -144,19 +144,19 @@ func schemagenOnce(t reflect.Type) schemagenResult {
 		res.Outcome, res.Err = "panic", p
 		return res
 	}
-	if p := catch(func() { s2, err2 = avro.SchemaForType(reflect.New(t).Interface()) }); p != "" {
-		res.Outcome, res.Err = "panic", p
-		return res
-	}
-	if (err == nil) != (err2 == nil) {
-		res.Outcome, res.Err = "nondeterministic", fmt.Sprint(err, " / ", err2)
-		return res
-	}
 	if err != nil {
+		if p := catch(func() { _, err2 = avro.SchemaForType(reflect.New(t).Interface()) }); p != "" {
+			res.Outcome, res.Err = "panic", p
+			return res
+		}
+		if err2 == nil {
+			res.Outcome, res.Err = "nondeterministic", fmt.Sprint(err, " / ", err2)
+			return res
+		}
 		res.Outcome, res.Err = "err", err.Error()
 		return res
 	}
-	res.Schema, res.Schema2 = projectLibSchema(s), projectLibSchema(s2)
+	res.Schema = projectLibSchema(s)
 	var cerr error
 	if p := catch(func() { _, cerr = s.Codec(zero) }); p != "" {
 		res.Codec = "panic: " + p
@@ -173,7 +173,62 @@ func schemagenOnce(t reflect.Type) schemagenResult {
 	} else {
 		res.Marshal = "ok"
 	}
+	// the caller owns what it was given: after it has edited the returned schema in place (every name, every union
+	// branch, every field), generating again -- from a pointer this time -- must give the same schema as before
+	scrambleSchema(&s, 0)
+	if p := catch(func() { s2, err2 = avro.SchemaForType(reflect.New(t).Interface()) }); p != "" {
+		res.Outcome, res.Err = "panic", p
+		return res
+	}
+	if err2 != nil {
+		res.Outcome, res.Err = "nondeterministic", fmt.Sprint(nil, " / ", err2)
+		return res
+	}
+	res.Schema2 = projectLibSchema(s2)
 	return res
+}
+
+func scrambleSchema(s *avro.Schema, depth int) {
+	if depth > 20 {
+		return
+	}
+	for i := range s.Union {
+		scrambleSchema(&s.Union[i], depth+1)
+	}
+	if o := s.Object; o != nil {
+		for i := range o.Fields {
+			scrambleSchema(&o.Fields[i].Type, depth+1)
+			o.Fields[i].Name = "edited_" + o.Fields[i].Name
+		}
+		scrambleSchema(&o.Items, depth+1)
+		scrambleSchema(&o.Values, depth+1)
+		o.Name, o.Namespace, o.LogicalType = "Edited", "edited.ns", "edited"
+		if len(o.Fields) > 1 {
+			o.Fields[0], o.Fields[1] = o.Fields[1], o.Fields[0]
+		}
+	}
+	if len(s.Union) > 1 {
+		s.Union[0], s.Union[1] = s.Union[1], s.Union[0]
+	}
+	s.Type = "edited"
+}
+
+// two different struct types of the same name (function-local declarations)
+func c15SameName1() reflect.Type {
+	type Event struct {
+		ID   int64  `json:"id"`
+		Kind string `json:"kind"`
+	}
+	return reflect.TypeOf(Event{})
+}
+
+func c15SameName2() reflect.Type {
+	type Event struct {
+		At    float64  `json:"at"`
+		Tags  []string `json:"tags"`
+		Count *int64   `json:"count"`
+	}
+	return reflect.TypeOf(Event{})
 }
 
 func schemagenChild(args []string) int {
@@ -237,6 +292,20 @@ type C15Outer struct {
 	X int64     `json:"x"`
 }
 
+// named types whose underlying kind is a primitive, registered with schemas that differ from the default mapping
+type C15Date string
+type C15Micros int64
+type C15Flag bool
+type C15PrimHolder struct {
+	D  C15Date              `json:"d"`
+	PD *C15Date             `json:"pd"`
+	LD []C15Date            `json:"ld"`
+	MM map[string]C15Micros `json:"mm"`
+	O  C15Micros            `json:"o,omitempty"`
+	F  C15Flag              `json:"f"`
+	S  string               `json:"s"`
+}
+
 func c15Registered(c *driverCtx) {
 	step := func(name string, regs []any) {
 		for _, t := range []reflect.Type{reflect.TypeOf(C15Outer{}), reflect.TypeOf(C15Holder{}), reflect.TypeOf(C15Custom{})} {
@@ -259,6 +328,31 @@ func c15Registered(c *driverCtx) {
 		avro.RegisterSchema(reflect.TypeOf(C15Custom{}), s)
 		sn, _ := schemaNodeFromJSON([]byte(sj))
 		return []any{map[string]any{"name": "C15Custom", "schema": sn}}
+	}
+	// named primitive kinds with registered schemas
+	{
+		regs := []any{}
+		for _, r := range []struct {
+			t  reflect.Type
+			sj string
+		}{{reflect.TypeOf(C15Date("")), `{"type":"int","logicalType":"date"}`}, {reflect.TypeOf(C15Micros(0)), `{"type":"long","logicalType":"timestamp-micros"}`}, {reflect.TypeOf(C15Flag(false)), `"string"`}} {
+			sch, err := avro.SchemaFromString(r.sj)
+			if err != nil {
+				panic(err)
+			}
+			avro.RegisterSchema(r.t, sch)
+			sn, _ := schemaNodeFromJSON([]byte(r.sj))
+			regs = append(regs, map[string]any{"name": r.t.Name(), "schema": sn})
+		}
+		t := reflect.TypeOf(C15PrimHolder{})
+		res := schemagenOnce(t)
+		c.rec.NewCase()
+		c.rec.Emit("C15|registered|primitive-kinds|"+t.Name(), map[string]any{"op": "schemagen", "type": projectType(t), "typeName": t.String(), "outcome": res.Outcome, "err": clipS(res.Err, 200),
+			"schema": res.Schema, "schema2": res.Schema2, "codec": "err", "marshal": res.Marshal, "regs": regs})
+	}
+	// two different types of the same name, one after the other and the first one again
+	for i, t := range []reflect.Type{c15SameName1(), c15SameName2(), c15SameName1()} {
+		emitSchemaGen(c, fmt.Sprintf("C15|same-type-name|%d", i), t, schemagenOnce(t))
 	}
 	step("0-before", []any{})
 	step("1-double", reg(`"double"`))
